@@ -132,12 +132,7 @@ func mergeConfigDict(opts *options, to, from *Config) Error {
 }
 
 func mergeConfigArr(opts *options, to, from *Config) Error {
-	currHandling := opts.configValueHandling
-	opts, err := fieldOptsOverride(opts, "*", -1)
-	if err != nil {
-		return err
-	}
-	switch currHandling {
+	switch opts.configValueHandling {
 	case cfgReplaceValue, cfgArrReplaceValue:
 		return mergeConfigReplaceArr(opts, to, from)
 
@@ -187,7 +182,7 @@ func mergeConfigMergeArr(opts *options, to, from *Config) Error {
 		}
 
 		// possible for individual index to be replaced
-		idxOpts, err := fieldOptsOverride(opts, "", i)
+		idxOpts, err := fieldOptsOverrideIdx(opts, i)
 		if err != nil {
 			return err
 		}
@@ -624,7 +619,10 @@ func fieldOptsOverride(opts *options, fieldName string, idx int) (*options, Erro
 		// Only return a new `options` when arriving at new nested child. This
 		// combined with optimizations in `includeWildcard` will ensure that only
 		// a new opts will be created and returned when absolutely required.
-		if child != nil && opts.fieldHandlingTree != child {
+		// Without a match (child is nil) no field handling is configured below
+		// this field. The tree must not be kept, as its names and indexes would
+		// match fields deeper down in the configuration.
+		if opts.fieldHandlingTree != child {
 			newOpts := *opts
 			newOpts.fieldHandlingTree = child
 			opts = &newOpts
@@ -639,6 +637,19 @@ func fieldOptsOverride(opts *options, fieldName string, idx int) (*options, Erro
 		opts = &newOpts
 	}
 	return opts, nil
+}
+
+// fieldOptsOverrideIdx selects the options for merging the array element idx,
+// using the field handling configured for the index or, if there is none, the
+// one configured for all elements of the array ('*').
+func fieldOptsOverrideIdx(opts *options, idx int) (*options, Error) {
+	if opts.fieldHandlingTree == nil {
+		return opts, nil
+	}
+	if _, child, _ := opts.fieldHandlingTree.fieldHandling("", idx); child != nil {
+		return fieldOptsOverride(opts, "", idx)
+	}
+	return fieldOptsOverride(opts, "*", -1)
 }
 
 func includeWildcard(child *fieldHandlingTree, parent *fieldHandlingTree) (*fieldHandlingTree, Error) {
